@@ -109,6 +109,7 @@ impl HeaderTagHeader {
 
 impl Header for HeaderTagHeader {
     fn payload_len(&self) -> usize {
+        assert!(self.size as usize >= mem::size_of::<Self>());
         self.size as usize - mem::size_of::<Self>()
     }
 
